@@ -42,6 +42,8 @@ def gen(rng, tier, i):
     if tier == "quick" and kind == "quic" and rng.random() < 0.3:
         kind = "http"
     outage = rng.choice(["kill", "restart", "restart", "blackhole"])
+    if kind == "quic" and outage == "restart" and rng.random() < 0.5:
+        outage = "restart-graceful"   # the old endpoint says goodbye (CONNECTION_CLOSE) before the new one appears
     li = sc.add_http_listener("l")
     lh = sc.add_http_listener("l-healthy")
     # healthy path
@@ -105,19 +107,21 @@ def gen(rng, tier, i):
     sc.rule("u", 'request.listener == "l"')
     g = 0
     cur_stop = None
-    if outage in ("kill", "restart"):
+    if outage in ("kill", "restart", "restart-graceful"):
         for r, (down, up) in enumerate(windows):
             stop = "down%d" % r
             sc.actors.append(server_actor(g, ("up%d" % (r - 1)) if r > 0 else None, stop))
             sc.faults.append({"at_ms": down, "kind": "set", "flag": stop})
-            if kind == "quic":
+            if kind == "quic" and outage == "restart-graceful":
+                pass   # the stopping server actor closes its endpoint properly
+            elif kind == "quic":
                 # the endpoint vanishes without saying goodbye: drop what it may still send
                 sc.faults.append({"at_ms": down, "kind": "stall", "ip": target_ip})
             else:
                 sc.faults.append({"at_ms": down, "kind": "reset_host", "ip": target_ip})
             g += 1
             if up is not None:
-                if kind == "quic":
+                if kind == "quic" and outage != "restart-graceful":
                     sc.faults.append({"at_ms": up, "kind": "heal", "ip": target_ip})
                 sc.faults.append({"at_ms": up, "kind": "set", "flag": "up%d" % r})
         if windows[-1][1] is not None:
@@ -219,7 +223,7 @@ def oracle(plan, out):
             if bad:
                 v("relapse", "after the first successful probe (%s) later probes failed again: %s (pattern %s)" % (res[first_ok][0], bad, "".join("+" if ok else "-" for p, ok in res)))
     # tunnels that were open across a kill end promptly on the client side
-    if meta["outage"] in ("kill", "restart") and meta["kind"] != "quic":
+    if meta["outage"] in ("kill", "restart", "restart-graceful") and meta["kind"] != "quic":
         for t in meta["tunnels"]:
             if t["healthy"] or t["cid"] not in present or t["cid"].startswith("probe") or not t.get("slow"):
                 continue
